@@ -58,27 +58,28 @@ class Case:
 
 
 def materialise(ctx, case, tag):
-    d = os.path.join(ctx.workdir, 'cases')
+    """every case gets its own directory, so that a mutated `include *` sees only its own files"""
+    d = os.path.join(ctx.workdir, 'cases', tag)
     os.makedirs(d, exist_ok=True)
     args = list(case.args)
     for name, content in case.files.items():
-        p = os.path.join(d, '%s-%s' % (tag, name))
+        p = os.path.join(d, name)
         with open(p, 'wb') as f:
             f.write(content if isinstance(content, bytes) else content.encode('latin-1'))
         args = [a.replace('@' + name + '@', p) for a in args]
     if case.journal is not None:
-        p = os.path.join(d, '%s.dat' % tag)
+        p = os.path.join(d, 'j.dat')
         with open(p, 'wb') as f:
             f.write(case.journal if isinstance(case.journal, bytes) else case.journal.encode('latin-1'))
         case.jpath = p
         args = ['-f', p] + args
-    return args
+    return args, d
 
 
-def run_one(binary, args, stdin, env):
+def run_one(binary, args, stdin, env, cwd=None):
     cmd = [binary, '--init-file', '/dev/null'] + args
     try:
-        p = subprocess.run(cmd, input=stdin if stdin is not None else b'', env=env, timeout=TIMEOUT,
+        p = subprocess.run(cmd, input=stdin if stdin is not None else b'', env=env, timeout=TIMEOUT, cwd=cwd,
                            stdout=subprocess.PIPE, stderr=subprocess.PIPE)
     except subprocess.TimeoutExpired as e:
         return 'timeout', (e.stdout or b'')[:4000], (e.stderr or b'')[:4000]
@@ -92,11 +93,21 @@ def run_cases(ctx, cases, tag, binary=None, env=None):
     env = env or lib.ledger_env()
     jobs = []
     for i, c in enumerate(cases):
-        jobs.append((c, materialise(ctx, c, '%s%d' % (tag, i))))
+        a, d = materialise(ctx, c, '%s%d' % (tag, i))
+        jobs.append((c, a, d))
     with concurrent.futures.ThreadPoolExecutor(max_workers=min(16, lib.NCPU)) as ex:
-        futs = [ex.submit(run_one, binary, a, c.stdin, env) for c, a in jobs]
-        for (c, a), f in zip(jobs, futs):
+        futs = [ex.submit(run_one, binary, a, c.stdin, env, d) for c, a, d in jobs]
+        for (c, a, d), f in zip(jobs, futs):
             c.result = f.result()
+    # a timeout seen under full load is confirmed by running the case again on its own
+    again = [(c, a, d) for c, a, d in jobs if c.result[0] == 'timeout']
+    if again:
+        with concurrent.futures.ThreadPoolExecutor(max_workers=4) as ex:
+            futs = [ex.submit(run_one, binary, a, c.stdin, env, d) for c, a, d in again]
+            for (c, a, d), f in zip(again, futs):
+                c.result = f.result()
+    for c, a, d in jobs:
+        shutil.rmtree(d, ignore_errors=True)
     return cases
 
 
@@ -608,10 +619,27 @@ def long_tokens(ctx, res, binary=None, env=None, sanitizer=False):
             f = ('%Y-%m-%d ' * 1000)[:n]
             cases.append(Case('date-format-length', j, ['reg', opt, f], info=dict(n=n)))
             cases.append(Case('date-format-literal-length', j, ['reg', opt, '%Y' + 'x' * n], info=dict(n=n)))
-    for n in [1, 5000]:
+    for n in [1]:
         cases.append(Case('script-file-unreadable', j, ['--script', '/nonexistent/c11-%d' % n], info=dict(n=n)))
     cases.append(Case('script-line-length', j, ['--script', '@script.txt@'], files={'script.txt': 'bal ' + 'A' * 1100 + '\n'}))
     cases.append(Case('repl-push-depth', j, [], stdin=('push\n' * 5000 + 'bal\n').encode(), repl=True, info=dict(n=5000)))
+    # deep structures other than expressions
+    for d in [100, 400, 1500, 2040]:
+        cases.append(Case('account-nesting-depth', '2020/01/01 p\n  ' + 'x:' * d + 'y  $1\n  B\n', ['bal'], info=dict(n=d)))
+    for d in [10, 100, 1000]:
+        cases.append(Case('apply-account-depth', 'apply account a\n' * d + j + 'end apply account\n' * d, ['bal'], info=dict(n=d)))
+        cases.append(Case('alias-chain-length', ''.join('alias a%d=a%d\n' % (i, i + 1) for i in range(d)) + '2020/01/01 p\n  a0  $1\n  B\n',
+                          ['bal', '--recursive-aliases'], info=dict(n=d)))
+    # a conversion directive naming one commodity on both sides
+    for t in ['C 1 a = 2 a\n']:
+        cases.append(Case('commodity-conversion-self', t + '2020/01/01 p\n  A  2 a\n  A  $2\n  B\n', ['bal']))
+    cases.append(Case('commodity-conversion', 'C 1.00 Kb = 1024 b\nC 1.00 Mb = 1024 Kb\n2020/01/01 p\n  A  2000000 b\n  B\n', ['bal']))
+    # options that reach through the temporary transaction of generated budget postings
+    bj = '~ Monthly\n  Expenses:Rent  $550.00\n  Assets\n\n2020/01/15 p\n  Expenses:Rent  $500.00\n  Assets\n'
+    for extra in (['--anon'], ['--account', 'payee'], ['--payee', 'account'], ['--pivot', 'tag'], []):
+        cases.append(Case('budget-temporary-xact', bj, ['budget'] + extra + NOW))
+        cases.append(Case('budget-temporary-xact', bj, ['reg', '--budget'] + extra + NOW))
+        cases.append(Case('forecast-temporary-xact', bj, ['reg', '--forecast-while', 'd<[2022]'] + extra + NOW))
     run_cases(ctx, cases, 'long', binary, env)
     for c in cases:
         res.evaluations += 1
@@ -711,7 +739,7 @@ def mutate(rng, data):
         i = rng.randrange(len(lines))
         l = lines[i]
         n = rng.choice(LONG_LENGTHS)
-        tok = rng.choice([b'a', b'1', b'A', b'x:', b' ', b'0', b'9', b'.', b'Z']) * n
+        tok = rng.choice([b'a', b'1', b'A', b'x', b' ', b'0', b'9', b'.', b'Z']) * n
         tok = tok[:n]
         pos = rng.choice([0, len(l)] + [m.start() for m in re.finditer(rb'[ \t;:@={}()\[\]"]', l)][:20] or [0])
         wrap = rng.choice([(b'', b''), (b'"', b'"'), (b'[', b']'), (b'{', b'}'), (b'(', b')'), (b'((', b'))'), (b'; ', b''), (b'; [', b']'),
@@ -770,7 +798,7 @@ def reduce_case(ctx, case, want, budget=40):
         return
     saved = TIMEOUT
     if want == 'timeout':
-        TIMEOUT, budget = 2, 14
+        TIMEOUT, budget = 0.7, 12
     try:
         j = case.journal if isinstance(case.journal, bytes) else case.journal.encode('latin-1')
         lines = j.split(b'\n')
@@ -944,7 +972,7 @@ def run(ctx, light=False):
               ('nesting', lambda: nesting(ctx, res)), ('division', lambda: division(ctx, res)),
               ('periods', lambda: periods(ctx, res)), ('truncated', lambda: truncated(ctx, res)),
               ('long_tokens', lambda: long_tokens(ctx, res)),
-              ('mutation', lambda: mutation(ctx, res, ctx.scale(2000, 40000)))]
+              ('mutation', lambda: mutation(ctx, res, ctx.scale(4000, 40000)))]
     if ctx.tier == 'thorough' and not light:
         phases.append(('sanitizer', lambda: sanitizer_tier(ctx, res, sites)))
     res.extra['phase_wall_s'] = {}
